@@ -423,7 +423,7 @@ pub fn run(args: &Args) {
 		"From Coq Require Import ZArith List. Import ListNotations. Open Scope Z_scope.\nFrom KV Require Import Base.Corr C06.Run C06.RunOwners.\nFrom KV Require C17.Run.",
 		"arun",
 		150,
-		"one case = one history of set()/update() calls on a real kira::Parameter (f64, Decibels or ClockSpeed in its three units) with generated targets (fixed / modulator-mapped), durations (0, sub-update, dyadic, arbitrary), easings, start times (immediate / delayed / clock present, paused, absent) and update partitions; or one history of handle commands and callbacks (random partitions, not multiples of the internal buffer, one-frame callbacks) on a real AudioManager with the parameter inside its owner: static / streaming sound (volume, panning, playback rate while Playing / Pausing / Paused / WaitingToResume / start pending; the fade volume of a sound played with a fade-in tween of zero / non-zero duration and immediate / delayed / clock start), sub-track + send route + send track + main track volumes, tweener and LFO modulators, a value linked at run time to the listener distance; distinct = distinct history text; non-trivial = contains at least one set and two updates",
+		"one case = one history of set()/update() calls on a real kira::Parameter (f64, Decibels or ClockSpeed in its three units) with generated targets (fixed / modulator-mapped), durations (0, sub-update, dyadic, arbitrary), easings, start times (immediate / delayed / clock present, paused, absent) and update partitions; or one history of handle commands and callbacks (random partitions, not multiples of the internal buffer, one-frame callbacks) on a real AudioManager with the parameter inside its owner: static / streaming sound (volume, panning, playback rate while Playing / Pausing / Paused / WaitingToResume / start pending; the fade volume of a sound played with a fade-in tween of zero / non-zero duration and immediate / delayed / clock start), sub-track + send route + send track + main track volumes, tweener and LFO modulators, a value linked at run time to the listener distance; the fade volume of a sound / sub-track / spatial sub-track told to move by pause(tween), resume(tween), resume_at(start, tween), stop(tween) with tweens that carry their own delayed / clock start time (a fixed corpus first: paused, found Paused, resume(Tween { start_time: Delayed(d), .. }); then seeded histories); distinct = distinct history text; non-trivial = contains at least one set and two updates",
 	);
 	let ids = ids();
 
@@ -817,7 +817,7 @@ impl Law {
 		self.tw = Some(LawTw { v0, target, start: tw.start.clone(), dur: Duration::from_nanos(tw.dur_ns).as_secs_f64(), dur_ns: tw.dur_ns, easing: tw.easing, elapsed: 0.0 });
 	}
 	/// one processed chunk of `dtc` seconds, with the clocks as they were during it
-	fn advance(&mut self, dtc: f64, clocks: &ClockSnap) {
+	fn advance(&mut self, dtc: f64, clocks: &ClockSnap) -> bool {
 		self.since_cmd += dtc;
 		let mut done = false;
 		if let Some(t) = &mut self.tw {
@@ -848,6 +848,7 @@ impl Law {
 			self.cur = t.target;
 			self.target_exact = Some(t.target);
 		}
+		done
 	}
 	fn describe(&self) -> String {
 		match &self.tw {
@@ -939,6 +940,9 @@ enum SCmd {
 	Pan(f32, OTw),
 	Pause(OTw),
 	Resume(Start, OTw),
+	/// `handle.resume(tween)` (NOT `resume_at`): the sound resumes at once, the tween is the fade-in's
+	ResumeTw(OTw),
+	Stop(OTw),
 }
 #[derive(Clone, Debug)]
 struct SCb {
@@ -979,6 +983,10 @@ impl SndH {
 			(SndH::Sm(h), SCmd::Pause(t)) => h.pause(mk_otween(clocks, t)),
 			(SndH::St(h), SCmd::Resume(st, t)) => h.resume_at(mk_ostart(clocks, st), mk_otween(clocks, t)),
 			(SndH::Sm(h), SCmd::Resume(st, t)) => h.resume_at(mk_ostart(clocks, st), mk_otween(clocks, t)),
+			(SndH::St(h), SCmd::ResumeTw(t)) => h.resume(mk_otween(clocks, t)),
+			(SndH::Sm(h), SCmd::ResumeTw(t)) => h.resume(mk_otween(clocks, t)),
+			(SndH::St(h), SCmd::Stop(t)) => h.stop(mk_otween(clocks, t)),
+			(SndH::Sm(h), SCmd::Stop(t)) => h.stop(mk_otween(clocks, t)),
 		}
 	}
 	fn state(&self) -> PlaybackState {
@@ -1001,6 +1009,9 @@ fn scmd_term(c: &SCmd) -> String {
 		SCmd::Pan(v, t) => format!("CPan {} {}", f32_bits_z(*v), otw_term(t)),
 		SCmd::Pause(t) => format!("CPause {}", otw_term(t)),
 		SCmd::Resume(st, t) => format!("CResume {} {}", ostart_term(st), otw_term(t)),
+		// what `resume(tween)` means: resume NOW, fade in with the tween (whose start time is the fade parameter's)
+		SCmd::ResumeTw(t) => format!("CResume OImm {}", otw_term(t)),
+		SCmd::Stop(t) => format!("CStop {}", otw_term(t)),
 	}
 }
 
@@ -1172,7 +1183,7 @@ fn snd_monitor(sc: &SndScen, tr: &SndTrace, checks: &mut (u64, u64, u64)) -> Vec
 				SCmd::Vol(v, tw) => vol.set(*v as f64, tw),
 				SCmd::Rate(v, tw) => rate.set(*v, tw),
 				SCmd::Pan(v, tw) => pan.set(*v as f64, tw),
-				SCmd::Pause(_) => state_cmd = true,
+				SCmd::Pause(_) | SCmd::ResumeTw(_) | SCmd::Stop(_) => state_cmd = true,
 				SCmd::Resume(st, tw) => {
 					state_cmd = true;
 					zero_resume = matches!(st, Start::Imm) && matches!(tw.start, Start::Imm) && tw.dur_ns == 0 && state_before == PlaybackState::Paused && !cb.cmds.iter().any(|c| matches!(c, SCmd::Pause(_)));
@@ -1413,6 +1424,8 @@ enum KCmd {
 	Main(f32, OTw),
 	Pause(OTw),
 	Resume(Start, OTw),
+	/// `handle.resume(tween)` (NOT `resume_at`)
+	ResumeTw(OTw),
 }
 #[derive(Clone, Debug)]
 struct KCb {
@@ -1448,6 +1461,7 @@ fn kcmd_term(c: &KCmd) -> String {
 		KCmd::Main(v, t) => format!("TMain {} {}", f32_bits_z(*v), otw_term(t)),
 		KCmd::Pause(t) => format!("TPause {}", otw_term(t)),
 		KCmd::Resume(st, t) => format!("TResume {} {}", ostart_term(st), otw_term(t)),
+		KCmd::ResumeTw(t) => format!("TResume OImm {}", otw_term(t)),
 	}
 }
 struct TrkCbTrace {
@@ -1488,6 +1502,7 @@ fn run_trk(sc: &TrkScen) -> TrkTrace {
 						KCmd::Main(v, t) => mgr.main_track().set_volume(Decibels(*v), mk_otween(&cids, t)),
 						KCmd::Pause(t) => sub.pause(mk_otween(&cids, t)),
 						KCmd::Resume(st, t) => sub.resume_at(mk_ostart(&cids, st), mk_otween(&cids, t)),
+						KCmd::ResumeTw(t) => sub.resume(mk_otween(&cids, t)),
 					}
 				}
 				let out = mgr.backend_mut().callback(cb.frames, 2);
@@ -1559,7 +1574,7 @@ fn trk_monitor(sc: &TrkScen, tr: &TrkTrace, checks: &mut (u64, u64)) -> Vec<Stri
 				KCmd::Route(v, tw) => route.set(*v as f64, tw),
 				KCmd::Send(v, tw) => send.set(*v as f64, tw),
 				KCmd::Main(v, tw) => main.set(*v as f64, tw),
-				KCmd::Pause(_) => state_cmd = true,
+				KCmd::Pause(_) | KCmd::ResumeTw(_) => state_cmd = true,
 				KCmd::Resume(st, tw) => {
 					state_cmd = true;
 					zero_resume = matches!(st, Start::Imm) && matches!(tw.start, Start::Imm) && tw.dur_ns == 0 && state_before == TrackPlaybackState::Paused && !cb.cmds.iter().any(|c| matches!(c, KCmd::Pause(_)));
@@ -2574,10 +2589,634 @@ fn owners_clock_speed(s: &mut Session, rng: &mut Rng, n: u64) {
 	}
 }
 
+// -----------------------------------------------------------------------------------------------------
+// (f) THE FADE VOLUME of a sound / sub-track / spatial sub-track, told to move by pause(tween), resume(tween),
+// resume_at(start, tween) and stop(tween) with tweens that carry their OWN start time (delayed / clock).  The fade volume
+// is a Parameter<Decibels> inside its owner: it keeps its old value until the tween's start time -- counted ONCE, from
+// the moment the owner tells it to move (the callback that takes the command; for resume_at the moment the resume's
+// start time has come) --, then follows the law in decibels, then is the target exactly.  Heard through a constant
+// source at every chunk end while the owner advances (Playing / Pausing / Resuming / Stopping).
+// -----------------------------------------------------------------------------------------------------
+#[derive(Clone, Debug)]
+enum MPs {
+	Playing,
+	Pausing,
+	Paused,
+	Waiting(Start, OTw),
+	Resuming,
+	Stopping,
+	Stopped,
+}
+/// who tells the fade parameter to move, and when (nothing else of the owner is mirrored)
+#[derive(Clone, Debug)]
+struct FadeOwner {
+	ps: MPs,
+	fade: Law,
+	is_track: bool,
+}
+impl FadeOwner {
+	fn new(is_track: bool) -> FadeOwner {
+		FadeOwner { ps: MPs::Playing, fade: Law::new(0.0), is_track }
+	}
+	fn pause(&mut self, tw: &OTw) {
+		if matches!(self.ps, MPs::Stopped) {
+			return;
+		}
+		self.ps = MPs::Pausing;
+		self.fade.set(-60.0, tw);
+	}
+	fn stop(&mut self, tw: &OTw) {
+		if matches!(self.ps, MPs::Stopped) {
+			return;
+		}
+		self.ps = MPs::Stopping;
+		self.fade.set(-60.0, tw);
+	}
+	fn resume(&mut self, st: &Start, tw: &OTw) {
+		if matches!(self.ps, MPs::Stopped) {
+			return;
+		}
+		if matches!(st, Start::Imm) {
+			self.ps = MPs::Resuming;
+			self.fade.set(0.0, tw);
+		} else {
+			self.ps = MPs::Waiting(st.clone(), tw.clone());
+		}
+	}
+	fn advance(&mut self, dtc: f64, clocks: &ClockSnap) {
+		let finished = self.fade.advance(dtc, clocks);
+		let mut resume_now: Option<OTw> = None;
+		match &mut self.ps {
+			MPs::Pausing if finished => self.ps = MPs::Paused,
+			MPs::Resuming if finished => self.ps = MPs::Playing,
+			MPs::Stopping if finished => self.ps = MPs::Stopped,
+			MPs::Waiting(st, tw) => {
+				// 0 later, 1 now, 2 never
+				let when = match st {
+					Start::Imm => 1,
+					Start::Del(rem) => {
+						*rem = rem.saturating_sub(Duration::from_secs_f64(dtc).as_nanos() as u64);
+						(*rem == 0) as u8
+					}
+					Start::Clk { clock, ticks, fr } => match clocks.get(*clock) {
+						Some((true, ticking, tk, f)) => (*ticking && (*tk > *ticks || (*tk == *ticks && *f >= *fr))) as u8,
+						_ => 2,
+					},
+				};
+				if when == 1 {
+					resume_now = Some(tw.clone());
+				} else if when == 2 {
+					self.ps = if self.is_track { MPs::Paused } else { MPs::Stopped };
+				}
+			}
+			_ => {}
+		}
+		if let Some(tw) = resume_now {
+			self.resume(&Start::Imm, &tw);
+		}
+	}
+	fn advancing(&self) -> bool {
+		matches!(self.ps, MPs::Playing | MPs::Pausing | MPs::Resuming | MPs::Stopping)
+	}
+	fn code(&self) -> i128 {
+		match self.ps {
+			MPs::Playing => 0,
+			MPs::Pausing => 1,
+			MPs::Paused => 2,
+			MPs::Waiting(..) => 3,
+			MPs::Resuming => 4,
+			MPs::Stopping => 5,
+			MPs::Stopped => 6,
+		}
+	}
+}
+const STATE_NAMES: [&str; 7] = ["Playing", "Pausing", "Paused", "WaitingToResume", "Resuming", "Stopping", "Stopped"];
+
+/// the last state command of a callback, for messages
+fn describe_scmds(cmds: &[SCmd]) -> String {
+	cmds.iter()
+		.filter_map(|c| match c {
+			SCmd::Pause(t) => Some(format!("pause({t:?})")),
+			SCmd::Resume(st, t) => Some(format!("resume_at({st:?}, {t:?})")),
+			SCmd::ResumeTw(t) => Some(format!("resume({t:?})")),
+			SCmd::Stop(t) => Some(format!("stop({t:?})")),
+			_ => None,
+		})
+		.collect::<Vec<_>>()
+		.join(", ")
+}
+
+/// the fade-volume monitor of one sound scenario (rate 1, started at once, a lead-in of at least four frames)
+fn snd_fade_monitor(sc: &SndScen, tr: &SndTrace, checks: &mut (u64, u64)) -> Vec<String> {
+	let mut gain_fail: Option<String> = None;
+	let mut state_fail: Option<String> = None;
+	let mut own = FadeOwner::new(false);
+	let mut vol = Law::new(sc.vol0 as f64);
+	let mut pan = Law::new(sc.pan0 as f64);
+	let mut last_cmd = String::from("(none)");
+	let mut frames_since_cmd = 0usize;
+	for (k, (cb, t)) in tr.exec.iter().zip(tr.cbs.iter()).enumerate() {
+		// read_commands: parameters, pause, resume, stop
+		for c in &cb.cmds {
+			match c {
+				SCmd::Vol(v, tw) => vol.set(*v as f64, tw),
+				SCmd::Pan(v, tw) => pan.set(*v as f64, tw),
+				_ => {}
+			}
+		}
+		for c in &cb.cmds {
+			if let SCmd::Pause(tw) = c {
+				own.pause(tw)
+			}
+		}
+		for c in &cb.cmds {
+			match c {
+				SCmd::Resume(st, tw) => own.resume(st, tw),
+				SCmd::ResumeTw(tw) => own.resume(&Start::Imm, tw),
+				_ => {}
+			}
+		}
+		for c in &cb.cmds {
+			if let SCmd::Stop(tw) = c {
+				own.stop(tw)
+			}
+		}
+		let d = describe_scmds(&cb.cmds);
+		if !d.is_empty() {
+			last_cmd = format!("{d} before callback {k}");
+			frames_since_cmd = 0;
+		}
+		let mut off = 0usize;
+		for (len, clocks) in &t.chunks {
+			let dtc = ODT * *len as f64;
+			vol.advance(dtc, clocks);
+			pan.advance(dtc, clocks);
+			own.advance(dtc, clocks);
+			let frames = &t.out[off * 2..(off + len) * 2];
+			off += len;
+			frames_since_cmd += len;
+			if !own.advancing() || gain_fail.is_some() {
+				continue;
+			}
+			checks.0 += 1;
+			let (l, r) = (frames[(len - 1) * 2] as f64, frames[(len - 1) * 2 + 1] as f64);
+			let (wl, wr) = expected_lr_faded(sc.src as f64, vol.value(), pan.value(), own.fade.value());
+			let tol = |w: f64| 2e-3 + 1e-3 * w.abs();
+			if (l - wl).abs() > tol(wl) || (r - wr).abs() > tol(wr) {
+				let gain = (l.abs().max(r.abs())) / (wl.abs().max(wr.abs())).max(1e-12);
+				let full = expected_lr_faded(sc.src as f64, vol.value(), pan.value(), 0.0);
+				let heard_db = 20.0 * ((l.abs().max(r.abs())) / full.0.abs().max(full.1.abs()).max(1e-12)).log10();
+				gain_fail = Some(format!(
+					"callback {k}, chunk ending at frame {off} of it ({frames_since_cmd} frames = {:.4} s processed since {last_cmd}): the last frame is ({l:?}, {r:?}), i.e. the fade volume heard is {heard_db:.2} dB (x{gain:.4} of what is due); the fade volume told to move by that command must be {:.3} dB [{}], giving ({wl:?}, {wr:?}) with volume {:.3} dB, panning {:.3}; the handle reports {:?} after this callback",
+					frames_since_cmd as f64 * ODT,
+					own.fade.value(),
+					own.fade.describe(),
+					vol.value(),
+					pan.value(),
+					t.state
+				));
+			}
+		}
+		checks.1 += 1;
+		if state_code(t.state) != own.code() && state_fail.is_none() {
+			state_fail = Some(format!(
+				"callback {k} ({frames_since_cmd} frames processed since {last_cmd}): the handle reports {:?}, but the owner of the fade volume must be {} [fade volume: {}]{}",
+				t.state,
+				STATE_NAMES[own.code() as usize],
+				own.fade.describe(),
+				if matches!(t.state, PlaybackState::WaitingToResume) && matches!(own.ps, MPs::Resuming) {
+					" -- the owner is counting the fade-in tween's own start time before telling the fade volume to move; the parameter will count it a second time"
+				} else {
+					""
+				}
+			));
+		}
+	}
+	gain_fail.into_iter().chain(state_fail).collect()
+}
+
+/// the same for a sub-track with a send route (KCmd) -- the fade multiplies the track's output before the route
+fn trk_fade_monitor(sc: &TrkScen, tr: &TrkTrace, checks: &mut (u64, u64)) -> Vec<String> {
+	let mut gain_fail: Option<String> = None;
+	let mut state_fail: Option<String> = None;
+	let mut own = FadeOwner::new(true);
+	let mut vol = Law::new(sc.vol0 as f64);
+	let mut route = Law::new(sc.route0 as f64);
+	let mut send = Law::new(sc.send0 as f64);
+	let mut main = Law::new(sc.main0 as f64);
+	let mut last_cmd = String::from("(none)");
+	let mut frames_since_cmd = 0usize;
+	for (k, (cb, t)) in tr.exec.iter().zip(tr.cbs.iter()).enumerate() {
+		let mut d = vec![];
+		for c in &cb.cmds {
+			match c {
+				KCmd::Vol(v, tw) => vol.set(*v as f64, tw),
+				KCmd::Route(v, tw) => route.set(*v as f64, tw),
+				KCmd::Send(v, tw) => send.set(*v as f64, tw),
+				KCmd::Main(v, tw) => main.set(*v as f64, tw),
+				_ => {}
+			}
+		}
+		for c in &cb.cmds {
+			if let KCmd::Pause(tw) = c {
+				own.pause(tw);
+				d.push(format!("pause({tw:?})"));
+			}
+		}
+		for c in &cb.cmds {
+			match c {
+				KCmd::Resume(st, tw) => {
+					own.resume(st, tw);
+					d.push(format!("resume_at({st:?}, {tw:?})"));
+				}
+				KCmd::ResumeTw(tw) => {
+					own.resume(&Start::Imm, tw);
+					d.push(format!("resume({tw:?})"));
+				}
+				_ => {}
+			}
+		}
+		if !d.is_empty() {
+			last_cmd = format!("{} before callback {k}", d.join(", "));
+			frames_since_cmd = 0;
+		}
+		let mut off = 0usize;
+		for (len, clocks) in &t.chunks {
+			let dtc = ODT * *len as f64;
+			for l in [&mut vol, &mut route, &mut send, &mut main] {
+				l.advance(dtc, clocks);
+			}
+			own.advance(dtc, clocks);
+			let frames = &t.out[off..off + len];
+			off += len;
+			frames_since_cmd += len;
+			if !own.advancing() || gain_fail.is_some() {
+				continue;
+			}
+			checks.0 += 1;
+			let got = frames[len - 1] as f64;
+			let x = sc.src as f64 * db_amp(vol.value() as f32 as f64) * db_amp(own.fade.value() as f32 as f64);
+			let want = ((x + x * db_amp(route.value() as f32 as f64) * db_amp(send.value() as f32 as f64)) * db_amp(main.value() as f32 as f64)).clamp(-1.0, 1.0);
+			if !((got - want).abs() <= 2e-3 + 1e-3 * want.abs()) {
+				gain_fail = Some(format!(
+					"callback {k}, chunk ending at frame {off} of it ({frames_since_cmd} frames = {:.4} s processed since {last_cmd}): the last frame is {got:?}; the fade volume told to move by that command must be {:.3} dB [{}], giving {want:?} (track volume {:.3} dB, route {:.3} dB, send track {:.3} dB, main track {:.3} dB); the handle reports {:?} after this callback",
+					frames_since_cmd as f64 * ODT,
+					own.fade.value(),
+					own.fade.describe(),
+					vol.value(),
+					route.value(),
+					send.value(),
+					main.value(),
+					t.state
+				));
+			}
+		}
+		checks.1 += 1;
+		if tstate_code(t.state) != own.code() && state_fail.is_none() {
+			state_fail = Some(format!(
+				"callback {k} ({frames_since_cmd} frames processed since {last_cmd}): the handle reports {:?}, but the owner of the fade volume must be {} [fade volume: {}]",
+				t.state,
+				STATE_NAMES[own.code() as usize],
+				own.fade.describe()
+			));
+		}
+	}
+	gain_fail.into_iter().chain(state_fail).collect()
+}
+
+fn frames_ns(frames: u64) -> u64 {
+	frames * 1_000_000_000 / OSR as u64
+}
+fn otw(start: Start, dur_ns: u64, easing: Easing) -> OTw {
+	OTw { start, dur_ns, easing }
+}
+fn plain_cbs(parts: &[usize]) -> Vec<SCb> {
+	parts.iter().map(|f| SCb { until_audible: false, cmds: vec![], frames: *f }).collect()
+}
+fn state_snd(streaming: bool, ibs: usize, vol0: f32, pan0: f32, mode: &'static str, cbs: Vec<SCb>) -> SndScen {
+	SndScen { streaming, ibs, src: 0.5, vol0, rate0: 1.0, pan0, st: Start::Imm, fade_in: None, mode, cbs }
+}
+/// The fixed corpus (independent of the seed; runs first): a sound is paused at once, found Paused, and resumed with
+/// `resume(Tween { start_time: Delayed(d), duration: D, .. })`.
+fn directed_fade_snd() -> Vec<SndScen> {
+	let mut v = vec![];
+	let cmd = |c: SCmd, frames: usize| SCb { until_audible: false, cmds: vec![c], frames };
+	for streaming in [false, true] {
+		// d = 32 frames, D = 64 frames, callbacks of one internal buffer
+		let mut cbs = plain_cbs(&[16, 16]);
+		cbs.push(cmd(SCmd::Pause(tw0()), 32));
+		cbs.push(cmd(SCmd::ResumeTw(otw(Start::Del(frames_ns(32)), frames_ns(64), Easing::Linear)), 16));
+		cbs.extend(plain_cbs(&[16; 9]));
+		v.push(state_snd(streaming, 16, 0.0, 0.0, "directed_resume_delayed_tween", cbs));
+	}
+	// the numbers of the demo: d = 100 ms, D = 100 ms, callbacks that are not multiples of the internal buffer
+	let mut cbs = plain_cbs(&[21]);
+	cbs.push(cmd(SCmd::Pause(tw0()), 21));
+	cbs.push(cmd(SCmd::ResumeTw(otw(Start::Del(100_000_000), 100_000_000, Easing::Linear)), 7));
+	cbs.extend(plain_cbs(&[13, 16, 29, 1, 40, 8, 33, 17, 5, 24, 31, 16]));
+	v.push(state_snd(false, 8, -6.0, 0.25, "directed_resume_delayed_tween", cbs));
+	// resumed while still Pausing (the new tween begins from the current, mid-tween value), non-linear easing
+	let mut cbs = plain_cbs(&[12]);
+	cbs.push(cmd(SCmd::Pause(otw(Start::Imm, frames_ns(40), Easing::Linear)), 16));
+	cbs.push(cmd(SCmd::ResumeTw(otw(Start::Del(frames_ns(20)), frames_ns(30), Easing::InPowi(2))), 9));
+	cbs.extend(plain_cbs(&[16, 3, 16, 16, 7, 16]));
+	v.push(state_snd(true, 16, 0.0, 0.0, "directed_resume_delayed_tween_while_pausing", cbs));
+	// the tween's start time is a clock time (tick 7 = frame 112 of a 64 Hz clock)
+	let mut cbs = plain_cbs(&[16]);
+	cbs.push(cmd(SCmd::Pause(tw0()), 16));
+	cbs.push(cmd(SCmd::ResumeTw(otw(Start::Clk { clock: 0, ticks: 7, fr: 0.0 }, frames_ns(40), Easing::OutPowi(2))), 16));
+	cbs.extend(plain_cbs(&[16; 8]));
+	v.push(state_snd(false, 16, 0.0, 0.0, "directed_resume_clock_tween", cbs));
+	// pause and stop with delayed tweens; resume_at with a delayed start AND a delayed tween (both delays are due)
+	let mut cbs = plain_cbs(&[16]);
+	cbs.push(cmd(SCmd::Pause(otw(Start::Del(frames_ns(24)), frames_ns(24), Easing::Linear)), 16));
+	cbs.extend(plain_cbs(&[16, 16, 16]));
+	cbs.push(cmd(SCmd::Resume(Start::Del(frames_ns(16)), otw(Start::Del(frames_ns(16)), frames_ns(32), Easing::Linear)), 16));
+	cbs.extend(plain_cbs(&[16; 5]));
+	cbs.push(cmd(SCmd::Stop(otw(Start::Del(frames_ns(20)), frames_ns(20), Easing::Linear)), 16));
+	cbs.extend(plain_cbs(&[16, 16, 16]));
+	v.push(state_snd(false, 16, 0.0, 0.0, "directed_pause_resume_at_stop_delayed_tweens", cbs));
+	v
+}
+fn state_trk(ibs: usize, route0: f32, mode: &'static str, cbs: Vec<KCb>) -> TrkScen {
+	TrkScen { ibs, src: 0.25, vol0: 0.0, route0, send0: 0.0, main0: 0.0, mode, cbs }
+}
+fn directed_fade_trk() -> Vec<TrkScen> {
+	let mut v = vec![];
+	let plain = |parts: &[usize]| -> Vec<KCb> { parts.iter().map(|f| KCb { until_audible: false, cmds: vec![], frames: *f }).collect() };
+	let cmd = |c: KCmd, frames: usize| KCb { until_audible: false, cmds: vec![c], frames };
+	let mut cbs = plain(&[16, 16]);
+	cbs.push(cmd(KCmd::Pause(tw0()), 32));
+	cbs.push(cmd(KCmd::ResumeTw(otw(Start::Del(frames_ns(32)), frames_ns(64), Easing::Linear)), 16));
+	cbs.extend(plain(&[16; 9]));
+	v.push(state_trk(16, -60.0, "directed_resume_delayed_tween", cbs));
+	let mut cbs = plain(&[12]);
+	cbs.push(cmd(KCmd::Pause(otw(Start::Imm, frames_ns(40), Easing::Linear)), 16));
+	cbs.push(cmd(KCmd::ResumeTw(otw(Start::Del(frames_ns(20)), frames_ns(30), Easing::InPowi(2))), 9));
+	cbs.extend(plain(&[16, 3, 16, 16, 7, 16]));
+	v.push(state_trk(16, -6.0, "directed_resume_delayed_tween_while_pausing", cbs));
+	v
+}
+
+/// a tween for a state command: its own start time is immediate / delayed / a clock time near the present
+fn gen_stw(r: &mut Rng, frames_so_far: usize) -> OTw {
+	let start = match r.below(10) {
+		0..=3 => Start::Del((r.below(40) + 3) * 976_562 + r.below(2) * 500),
+		4 | 5 => Start::Clk { clock: 0, ticks: (frames_so_far / 16) as u64 + r.below(4), fr: if r.chance(1, 2) { 0.0 } else { 0.5 } },
+		_ => Start::Imm,
+	};
+	let dur_ns = match r.below(8) {
+		0 => 0,
+		1 => r.below(900_000) + 1,
+		2 => (r.below(6) + 1) * 7_812_500,
+		_ => (r.below(56) + 8) * 976_562 + r.below(1000),
+	};
+	let easing = match r.below(5) {
+		0 => Easing::InPowi(2),
+		1 => Easing::OutPowi(2),
+		_ => Easing::Linear,
+	};
+	OTw { start, dur_ns, easing }
+}
+/// 0 pause, 1 resume(tween), 2 resume_at(start, tween), 3 stop
+fn gen_state_kinds(r: &mut Rng, allow_stop: bool) -> Vec<u8> {
+	let n = r.range(3, 5) as usize;
+	let mut kinds = vec![];
+	let mut paused = false;
+	for k in 0..n {
+		let kind = if allow_stop && k + 1 == n && r.chance(1, 3) {
+			3
+		} else if !paused {
+			if r.chance(5, 6) {
+				0
+			} else {
+				1
+			}
+		} else {
+			match r.below(6) {
+				0 => 0,
+				1 | 2 => 2,
+				_ => 1,
+			}
+		};
+		paused = kind == 0;
+		kinds.push(kind);
+	}
+	kinds
+}
+fn gen_state_start(r: &mut Rng, frames_so_far: usize) -> Start {
+	if r.chance(1, 2) {
+		Start::Del((r.below(30) + 4) * 976_562)
+	} else {
+		Start::Clk { clock: 0, ticks: (frames_so_far / 16) as u64 + r.below(3) + 1, fr: 0.0 }
+	}
+}
+fn gen_state_snd(r: &mut Rng, k: u64) -> SndScen {
+	let ibs = *r.pick(&[8usize, 16, 32]);
+	let mut total = r.below(9) as usize + 4;
+	let mut cbs = plain_cbs(&[total]);
+	for kind in gen_state_kinds(r, true) {
+		let tw = if kind == 0 && r.chance(1, 3) { tw0() } else { gen_stw(r, total) };
+		let c = match kind {
+			0 => SCmd::Pause(tw),
+			1 => SCmd::ResumeTw(tw),
+			2 => SCmd::Resume(gen_state_start(r, total), tw),
+			_ => SCmd::Stop(tw),
+		};
+		let mut cmds = vec![c];
+		if r.chance(1, 5) {
+			cmds.push(SCmd::Vol(*r.pick(&[0.0, -6.0, -12.34]), gen_otw(r, false)));
+		}
+		// time for the command: sometimes short of the tween's start / end, sometimes well past them
+		let mut budget = *r.pick(&[10usize, 30, 60, 100, 130]);
+		let mut first = true;
+		while budget > 0 {
+			let f = gen_frames(r, ibs, 3).min(budget);
+			cbs.push(SCb { until_audible: false, cmds: if first { std::mem::take(&mut cmds) } else { vec![] }, frames: f });
+			first = false;
+			budget -= f;
+			total += f;
+		}
+	}
+	state_snd(k % 2 == 1, ibs, *r.pick(&[0.0f32, 0.0, -6.0]), *r.pick(&[0.0f32, 0.0, 0.25]), "state_tweens", cbs)
+}
+fn gen_state_trk(r: &mut Rng) -> TrkScen {
+	let ibs = *r.pick(&[8usize, 16, 32]);
+	let mut total = r.below(9) as usize + 4;
+	let mut cbs = vec![KCb { until_audible: false, cmds: vec![], frames: total }];
+	for kind in gen_state_kinds(r, false) {
+		let tw = if kind == 0 && r.chance(1, 3) { tw0() } else { gen_stw(r, total) };
+		let c = match kind {
+			0 => KCmd::Pause(tw),
+			1 => KCmd::ResumeTw(tw),
+			_ => KCmd::Resume(gen_state_start(r, total), tw),
+		};
+		let mut cmds = vec![c];
+		if r.chance(1, 5) {
+			cmds.push(KCmd::Vol(*r.pick(&[0.0, -6.0, -12.34]), gen_otw(r, false)));
+		}
+		let mut budget = *r.pick(&[10usize, 30, 60, 100, 130]);
+		let mut first = true;
+		while budget > 0 {
+			let f = gen_frames(r, ibs, 3).min(budget);
+			cbs.push(KCb { until_audible: false, cmds: if first { std::mem::take(&mut cmds) } else { vec![] }, frames: f });
+			first = false;
+			budget -= f;
+			total += f;
+		}
+	}
+	state_trk(ibs, *r.pick(&[-60.0f32, -6.0, 0.0]), "state_tweens", cbs)
+}
+fn judge_state_snd(s: &mut Session, sc: &SndScen) {
+	let mut tr = run_snd(sc);
+	// a Stopped sound is unloaded: the history ends with the callback after which the handle reports Stopped (what the
+	// handle's position shows from then on is no business of a tween)
+	if let Some(k) = tr.cbs.iter().position(|c| c.state == PlaybackState::Stopped) {
+		tr.cbs.truncate(k + 1);
+		tr.exec.truncate(k + 1);
+	}
+	let term = snd_term(sc, &tr);
+	s.case(if sc.streaming { "owner_streaming_sound_state_tweens" } else { "owner_static_sound_state_tweens" }, term.clone(), &snd_obs(&tr), Some(hash_key(&term)));
+	s.count(&format!("sound_{}", sc.mode));
+	if tr.panicked.is_some() {
+		s.fail(format!("{sc:?}"), "panic while driving a sound through the manager".into(), None);
+		return;
+	}
+	let mut checks = (0, 0);
+	let fails = snd_fade_monitor(sc, &tr, &mut checks);
+	*s.hist.entry("state_tweens_chunk_end_frames_judged".into()).or_insert(0) += checks.0;
+	*s.hist.entry("state_tweens_states_judged".into()).or_insert(0) += checks.1;
+	for f in fails {
+		s.fail(format!("{} sound of constant amplitude on the main track, 1024 Hz, internal buffer {}, commands through its handle (ResumeTw = handle.resume(tween), Resume = handle.resume_at(start, tween)): {:?}", if sc.streaming { "streaming" } else { "static" }, sc.ibs, sc), f, None);
+	}
+}
+fn judge_state_trk(s: &mut Session, sc: &TrkScen) {
+	let tr = run_trk(sc);
+	let term = trk_term(sc, &tr);
+	s.case("owner_track_state_tweens", term.clone(), &trk_obs(&tr), Some(hash_key(&term)));
+	s.count(&format!("track_{}", sc.mode));
+	if tr.panicked.is_some() {
+		s.fail(format!("{sc:?}"), "panic while driving a track through the manager".into(), None);
+		return;
+	}
+	let mut checks = (0, 0);
+	let fails = trk_fade_monitor(sc, &tr, &mut checks);
+	*s.hist.entry("state_tweens_chunk_end_frames_judged".into()).or_insert(0) += checks.0;
+	*s.hist.entry("state_tweens_states_judged".into()).or_insert(0) += checks.1;
+	for f in fails {
+		s.fail(format!("constant sound on a sub-track routed to a send track, 1024 Hz, internal buffer {}, commands through the sub-track's handle (ResumeTw = handle.resume(tween), Resume = handle.resume_at(start, tween)): {:?}", sc.ibs, sc), f, None);
+	}
+}
+/// a SPATIAL sub-track (no attenuation, spatialization strength 0) paused at once and resumed with `resume(tween)`
+/// (monitor only: the model's track case is the plain sub-track)
+fn directed_fade_spatial(s: &mut Session) {
+	for (d, dur, parts) in [(32u64, 64u64, vec![16usize; 10]), (20, 30, vec![9, 16, 3, 16, 16, 7, 16])] {
+		let tw = otw(Start::Del(frames_ns(d)), frames_ns(dur), Easing::Linear);
+		let desc = format!("constant sound (0.5) on a spatial sub-track (no attenuation, strength 0), 1024 Hz, internal buffer 16: callbacks [16, 16]; pause(zero tween), callback 32; resume({tw:?}), callbacks {parts:?}");
+		let r = catch(|| {
+			let log: ChunkLog = Arc::new(Mutex::new(vec![]));
+			let ids: ClockIds = Arc::new(Mutex::new(vec![]));
+			let mut mgr: Mgr = manager(OSR, 16, Capacities::default(), MainTrackBuilder::new().with_effect(ChunkProbeBuilder(ids.clone(), log.clone())));
+			let listener = mgr.add_listener(v3(0.0), quat_id()).unwrap();
+			let mut track = mgr.add_spatial_sub_track(listener.id(), v3(1.0), SpatialTrackBuilder::new().attenuation_function(None).spatialization_strength(0.0)).unwrap();
+			track.play(crate::inject::Dc(0.5)).unwrap();
+			mgr.backend_mut().callback(16, 2);
+			mgr.backend_mut().callback(16, 2);
+			track.pause(mk_otween(&[], &tw0()));
+			mgr.backend_mut().callback(32, 2);
+			let paused = track.state();
+			track.resume(mk_otween(&[], &tw));
+			log.lock().unwrap().clear();
+			let mut per_cb = vec![];
+			for f in &parts {
+				let out = mgr.backend_mut().callback(*f, 2);
+				per_cb.push((std::mem::take(&mut *log.lock().unwrap()), out, track.state()));
+			}
+			(paused, per_cb)
+		});
+		s.eval_only("spatial_track_directed_resume_delayed_tween");
+		let (paused, per_cb) = match r {
+			Outcome::Ok(x) => x,
+			_ => {
+				s.fail(desc, "panic while driving a spatial sub-track through the manager".into(), None);
+				continue;
+			}
+		};
+		if paused != TrackPlaybackState::Paused {
+			s.fail(desc.clone(), format!("the track reports {paused:?} after pause(zero tween) and a callback"), None);
+			continue;
+		}
+		let mut own = FadeOwner::new(true);
+		own.ps = MPs::Paused;
+		own.fade = Law::new(-60.0);
+		own.resume(&Start::Imm, &tw);
+		let mut since = 0usize;
+		let mut state_fail: Option<String> = None;
+		'cbs: for (k, (chunks, out, state)) in per_cb.iter().enumerate() {
+			let mut off = 0;
+			for (len, clocks) in chunks {
+				own.advance(ODT * *len as f64, clocks);
+				off += len;
+				since += len;
+				let (l, r) = (out[(off - 1) * 2] as f64, out[(off - 1) * 2 + 1] as f64);
+				let want = 0.5 * db_amp(own.fade.value() as f32 as f64);
+				if (l - want).abs() > 2e-3 + 1e-3 * want || (r - want).abs() > 2e-3 + 1e-3 * want {
+					s.fail(
+						desc.clone(),
+						format!(
+							"callback {k} after the resume, chunk ending at frame {off} of it ({since} frames = {:.4} s processed since resume(tween)): the last frame is ({l:?}, {r:?}); the fade volume must be {:.3} dB [{}], giving {want:?}; the handle reports {state:?} after this callback",
+							since as f64 * ODT,
+							own.fade.value(),
+							own.fade.describe()
+						),
+						None,
+					);
+					break 'cbs;
+				}
+			}
+			if tstate_code(*state) != own.code() && state_fail.is_none() {
+				state_fail = Some(format!("callback {k} after the resume ({since} frames processed since resume(tween)): the handle reports {state:?}, but the owner of the fade volume must be {}", STATE_NAMES[own.code() as usize]));
+			}
+		}
+		if let Some(f) = state_fail {
+			s.fail(desc.clone(), f, None);
+		}
+	}
+}
+/// (f) first the fixed corpus, then seeded histories
+fn owners_state_tweens_directed(s: &mut Session) {
+	s.flush();
+	s.shard_size = 3;
+	for sc in directed_fade_snd() {
+		judge_state_snd(s, &sc);
+	}
+	for sc in directed_fade_trk() {
+		judge_state_trk(s, &sc);
+	}
+	directed_fade_spatial(s);
+	s.flush();
+}
+fn owners_state_tweens(s: &mut Session, rng: &mut Rng, n: u64) {
+	s.flush();
+	s.shard_size = 4;
+	for k in 0..n {
+		if k % 3 == 2 {
+			let sc = gen_state_trk(rng);
+			judge_state_trk(s, &sc);
+		} else {
+			let sc = gen_state_snd(rng, k);
+			judge_state_snd(s, &sc);
+		}
+	}
+}
+
+
 fn owners(s: &mut Session, rng: &mut Rng, args: &Args) {
 	let mul = args.budget_mul * if args.thorough { 8 } else { 1 };
 	// Rng::new(seed) and Rng::new(seed + 1) are the same stream shifted by one: continue from a scrambled state
 	let rng = &mut rng.fork();
+	// the fixed corpus of (f) runs first on every run, whatever the seed
+	owners_state_tweens_directed(s);
 	owners_sounds(s, rng, 80 * mul);
 	owners_tracks(s, rng, 40 * mul);
 	s.flush();
@@ -2589,4 +3228,6 @@ fn owners(s: &mut Session, rng: &mut Rng, args: &Args) {
 	let rng2 = &mut Rng::new(args.seed ^ 0xC06_FADE).fork();
 	owners_clock_speed(s, rng2, 40 * mul);
 	owners_fade_in(s, rng2, 16 * mul);
+	let rng3 = &mut Rng::new(args.seed ^ 0xC06_57A7E).fork();
+	owners_state_tweens(s, rng3, 36 * mul);
 }
